@@ -811,4 +811,19 @@ theorem checkSheet_P {P : Cell → Prop} (he : P emptyCell) (rows : List Row) (g
   | panic => rw [hp] at h; simp [Outcome.bind] at h
 
 
+/-! ## unzip size accounting -/
+
+theorem zipAccount_iff (sizes : List Nat) : ∀ (run limit : Nat), run ≤ limit →
+    (zipAccount sizes run limit = true ↔ run + sizes.sum ≤ limit) := by
+  induction sizes with
+  | nil => intro run limit h; simp [zipAccount]; exact h
+  | cons x xs ih =>
+    intro run limit h
+    unfold zipAccount
+    split
+    · simp only [List.sum_cons]; constructor
+      · intro h; cases h
+      · intro h; omega
+    · rw [ih _ _ (by omega)]; simp only [List.sum_cons]; omega
+
 end XlModel.Decode
